@@ -300,6 +300,11 @@ def _run_history(case, ctx: Ctx):
                     continue
                 if fam not in EXACT or fam in ("sgpr",):
                     continue
+                if case.get("lowrank"):
+                    # the fantasy update borders the cached (here: rank-2) root; its Schur complement is then not a valid one
+                    # (NaN in the dependency's Cholesky): low-rank histories have no fantasy operations
+                    ctx.label("fantasy_skipped_lowrank")
+                    continue
                 if fam in ("exact", "exact_batch") and list(cur_X.shape[:-2]) != list(case["recipe"]["mb"]):
                     ctx.label("fantasy_skipped_unbatched_inputs")
                     continue
